@@ -25,7 +25,7 @@ def runSpec (c : Case) (tl : Rune → Rune) : String :=
   | none => s!"spec {c.id} na"
   | some .oof => s!"spec {c.id} oof"
   | some (.panic p w) => s!"spec {c.id} panic {fmtPanic p} {fmtWorld E RT.pt0 w}"
-  | some (.fail w) =>
+  | some (.fail _ w) =>
     let pt := (Spec.advance E { rule := none, handlers := [] } RT.pt0 (Spec.initWorld E)).1
     s!"spec {c.id} fail nil {fmtWorld E pt w}"
   | some (.ok v pt _ w) => s!"spec {c.id} ok {fmtVal v} {fmtWorld E pt w}"
